@@ -170,6 +170,14 @@ def run_case(case):
             model.train()
             model.eval()
             phases.append(("after_train_eval_toggle", reach_matrix(model, Fq, a["ctx"])))
+            if a["btype"] == "ff_random":
+                # a checkpoint restored into a freshly built instance (which drew its own random degrees): every mask that
+                # depends on the random draw has to come from the checkpoint
+                other, _ = build(a, seed + 7919)
+                other.eval()
+                other.load_state_dict(positive_state(model))
+                phases.append(("restored_into_fresh_instance", reach_matrix(other, Fq, a["ctx"])))
+                r.count("restored_instances")
         except Exception as e:
             r.viol("forward_raises", "MADE forward raises", arch=a, exc=repr(e)[:300])
             continue
